@@ -73,6 +73,7 @@ static std::string tohex(const unsigned char *p, size_t n) {
   for (size_t i = 0; i < n; ++i) { s.push_back(d[p[i] >> 4]); s.push_back(d[p[i] & 15]); }
   return s.empty() ? "-" : s;
 }
+static std::string unesc_hex(const std::string &h) { std::vector<unsigned char> v = unhex(h); return std::string(v.begin(), v.end()); }
 // exact-size heap buffer (size 0 included)
 struct Buf {
   unsigned char *p; size_t n;
@@ -288,6 +289,61 @@ def _emit_eqcopy(self):
 
 
 Emitter.emit_eqcopy = _emit_eqcopy
+
+TEXT_OPTION_SETS = []
+for _base in (10, 16, 2):
+    for _grp in (False, True):
+        for _ml, _cm in ((True, False), (True, True), (False, False)):
+            TEXT_OPTION_SETS.append({"base": _base, "grouping": _grp, "multiline": _ml, "comments": _cm})
+
+
+def _emit_text(self):
+    L = self.lines
+    L.append("static std::string esc(const std::string &s) { std::string o; for (char c : s) { if (c == '\\n') o += \"\\\\n\"; "
+             "else if (c == '\\\\') o += \"\\\\\\\\\"; else o.push_back(c); } return o; }")
+    L.append("static ::emboss::TextOutputOptions opts(int k) {")
+    L.append("  static const int base[] = {%s};" % ", ".join(str(o["base"]) for o in TEXT_OPTION_SETS))
+    L.append("  static const bool grp[] = {%s};" % ", ".join("true" if o["grouping"] else "false" for o in TEXT_OPTION_SETS))
+    L.append("  static const bool ml[] = {%s};" % ", ".join("true" if o["multiline"] else "false" for o in TEXT_OPTION_SETS))
+    L.append("  static const bool cm[] = {%s};" % ", ".join("true" if o["comments"] else "false" for o in TEXT_OPTION_SETS))
+    L.append("  auto o = ::emboss::TextOutputOptions().WithNumericBase(static_cast<std::uint8_t>(base[k])).WithDigitGrouping(grp[k])"
+             ".WithComments(cm[k]);")
+    L.append("  if (ml[k]) o = o.Multiline(true).WithIndent(\"  \");")
+    L.append("  return o;")
+    L.append("}")
+    L.append("static void run_op(const std::string &op, int sidx, const std::vector<long long> &params, "
+             "const std::string &hex, std::istringstream &in) {")
+    L.append("  Buf b(unhex(hex)); unsigned char *p = b.p; size_t n = b.n;")
+    L.append("  int k; in >> k; std::string extra; in >> extra;")
+    L.append("  switch (sidx) {")
+    for i, s in enumerate(self.tops()):
+        args = "".join(self.param_cpp(pp, "params[%d]" % j) + ", " for j, pp in enumerate(s.params))
+        L.append("    case %d: {" % i)
+        L.append("      auto v = %s;" % self.make_view_expr(s))
+        L.append("      putb(\"ok\", v.Ok());")
+        L.append("      if (op == \"text\" && v.Ok()) {")
+        L.append("        std::string s = ::emboss::WriteToString(v, opts(k));")
+        L.append("        std::vector<unsigned char> zeros(n, 0); Buf z(zeros);")
+        L.append("        auto v2 = ::%s::Make%sView(%sz.p, z.n);" % (self.ns, s.name, args))
+        L.append("        bool rd = ::emboss::UpdateFromText(v2, s);")
+        L.append("        put(\"text\", esc(s)); putb(\"read\", rd); putb(\"v2ok\", v2.Ok());")
+        L.append("        if (rd && v2.Ok()) { std::string s2 = ::emboss::WriteToString(v2, opts(k)); putb(\"same\", s2 == s); "
+                 "if (s2 != s) put(\"text2\", esc(s2)); }")
+        L.append("        put(\"z\", tohex(z.p, z.n));")
+        L.append("      } else if (op == \"ptext\") {")
+        L.append("        // partial output on any view (checked API), then feed arbitrary text back")
+        L.append("        std::string s = ::emboss::WriteToString(v, opts(k).WithAllowPartialOutput(true));")
+        L.append("        put(\"text\", esc(s));")
+        L.append("        std::string t = unesc_hex(extra);")
+        L.append("        putb(\"read\", ::emboss::UpdateFromText(v, t)); put(\"after\", tohex(p, n));")
+        L.append("      }")
+        L.append("      break; }")
+    L.append("    default: break;")
+    L.append("  }")
+    L.append("}")
+
+
+Emitter.emit_text = _emit_text
 
 
 def _writable_virtual(s, f):
